@@ -78,6 +78,7 @@ class Model:
     def callgraph(self):
         if self._cg is None:
             cg = {}
+            self._cg_cb = {}
             # trait methods of crate-private structs (a hand-written Iterator / Stream / Future): whoever builds the struct
             # hands it to a consumer that drives those methods
             impl_methods = {}
@@ -111,8 +112,11 @@ class Model:
                         fn_item(a)
                     pc_ = is_param_call(t)
                     if pc_:
+                        # a private higher-order helper calling the closure it was given: followed by reach() only when the
+                        # walk starts inside that helper -- a caller already reaches the closure it constructs, and the closures
+                        # other callers pass are not part of its run
                         for cb_ in (self.flow.internal_callback(b, pc_) or []):
-                            out.add(cb_.id)
+                            self._cg_cb.setdefault(b.id, set()).add(cb_.id)
                 for bb, si, s in b.stmts():
                     if s["k"] != "assign":
                         continue
@@ -143,6 +147,8 @@ class Model:
                 continue
             seen.add(x)
             st.extend(cg[x])
+            if x in self._cg_cb and start in self.fb.bodies and self.fb.bodies[x].root == self.fb.bodies[start].root:
+                st.extend(self._cg_cb[x])
         self._reach[start] = seen
         return seen
 
@@ -259,6 +265,30 @@ class Model:
                 self.errors.append("READY channel not found: expected exactly one other channel in %s, found %d" % (
                     self.SETUP, len(others)))
         self.RESULTS = [(b.id, bb) for (b, bb, t) in self.channels if (b.id, bb) not in (self.DONE, self.READY)]
+        # call-site sensitivity of the value flow is for helpers *below* the set-up function; everything from which the set-up
+        # function is reachable keeps the merged (context-insensitive) view, which the "same structure as the set-up paired"
+        # comparisons are phrased in
+        if self.SETUP:
+            anc = {self.SETUP}
+            changed = True
+            while changed:
+                changed = False
+                for b in fb.prod_bodies():
+                    if b.id in anc:
+                        continue
+                    hit = False
+                    for bb, t in b.calls():
+                        c = t.get("callee") or {}
+                        for pth in (c.get("path"), (c.get("resolved") or {}).get("path") if isinstance(c.get("resolved"), dict) else None):
+                            if pth in anc:
+                                hit = True
+                    if not hit:
+                        hit = any(x.parent == b.id and x.id in anc for x in fb.prod_bodies())
+                    if hit:
+                        anc.add(b.id)
+                        changed = True
+            self.flow.merge_call_targets = anc
+            self.flow.table = {}
 
     def chan_role(self, alloc_key):
         if alloc_key == self.DONE:
